@@ -19,6 +19,8 @@ pub use convert::IntoRing;
 pub use repr::Reduced;
 
 mod add;
+#[cfg(dashu_verif)]
+pub use add::verif_large_op;
 pub(crate) mod convert;
 mod div;
 mod fmt;
